@@ -213,11 +213,10 @@ def projectAll (aggs : List AggSpec) (sts : List St) : List SV := (aggs.zip sts)
 
 def showKey (k : List (Option SV)) : List SV := k.map fun o => o.getD .null
 
-def subtotal (mode : GroupMode) (g : Groups) : SubGroups :=
-  match mode with
-  | .groupBy => g.map fun e => (e.1.map some, e.2)
-  | .rollup => addSubtotals rollupKeys g
-  | .cube => addSubtotals cubeKeys g
+def keysOfMode : GroupMode → List SV → List (List (Option SV))
+  | .groupBy => groupByKeys
+  | .rollup => rollupKeys
+  | .cube => cubeKeys
 
 /-- chunks of `n` accumulators, one per pivot value -/
 def chunks (n : Nat) : Nat → List St → List (List St)
@@ -245,8 +244,8 @@ def opRows (d : DF) : Op → Except RefErr (List Row)
   | .union other => if other.names.length = d.names.length then .ok (unionM d.rows other.rows) else .error .widthMismatch
   | .agg mode keys aggs => do
       let rows ← aggInput d keys aggs
-      let g := aggregateSpec aggs.length rows
-      return (subtotal mode g).map fun e => showKey e.1 ++ projectAll aggs e.2
+      let g := aggregateSpec aggs.length (expand (keysOfMode mode) rows)
+      return g.map fun e => showKey e.1 ++ projectAll aggs e.2
   | .pivot keys pcol values aggs => do
       let pvs ← pivotVals d pcol values
       let pi ← findCol d.names pcol
